@@ -69,6 +69,15 @@ CLAIMED = {
          "Static decision of the structural clauses of C10 over all 1 091 module functions: no decoder retains its input, no encoder leaks receiver memory, no exported function appends in place to caller-visible memory or reslices beyond len, read-only operations write nothing, every decoder overwrites every receiver leaf on every successful return, band constructors return fresh memory reaching no global, and every package-level variable is either never written after init or accessed only under its mutex. This is lock/alias discipline on all paths, not a schedule exploration; stdlib race freedom is assumed.",
          "Trusts go/ssa, the VTA call graph, the stdlib effect table in internal/effects/stdlib.go; known gaps: control dependence on old values, x[:0] resets.",
          "DESIGN.md §3 C10"),
+ "C09": ("SSA guard analysis (engine E3): linear facts from dominating conditions, versioned loads, loop invariants for counted loops, interprocedural decision summaries and registry field invariants; every index/slice/division/shift/make/type-assertion/nil-dereference obligation reachable from a decoder root must be discharged, every loop must make progress; effect rule that no decoder writes through its input",
+         "Static decision that no byte string can make a decoder panic or loop forever: all 119 decoder roots (UnmarshalBinary/Text/JSON, Decode*ToMACCommands, Decrypt*, Scan) and every module function they reach are analysed; each potentially panicking instruction is an obligation proved from dominating facts for all inputs, and every loop is shown to advance an index towards an invariant bound. Conservative: what cannot be proved is reported, so 'held' means proved. Allocation size proportional to the input follows from the make/append obligations being bounded by len(data) facts, not from a cost model.",
+         "Trusts go/ssa, the VTA call graph, internal/guards (fact language, extern table of stdlib preconditions).",
+         "DESIGN.md §3 C09"),
+
+ "C19": ("SSA guard analysis (engine E3) of fragmentation.Encode, matrixLine, prbs23, isPower2: panic obligations, loop progress, systematic-prefix rule (first rows are the data slices appended in order and never written again), row-count rule, selectable-rows rule",
+         "Static decision of the structural necessary conditions of C19: invalid sizes produce errors not panics (all div/mod/make/slice obligations discharged), the encoder terminates, the first len(data)/fragmentSize rows are the uncoded fragments in order, every successful return has at least M+redundancy rows, and the parity row selector can reach every data row. It does NOT decide recoverability of the data from any M-subset of rows (linear algebra over GF(2) on runtime matrices; declined in DESIGN.md).",
+         "Trusts go/ssa, internal/guards.",
+         "DESIGN.md §3 C19"),
 }
 
 NOT_APPLICABLE = {
